@@ -5,6 +5,9 @@ from ..core import modules_for
 
 def run(ctx):
     q = ctx.tier == "quick"
+    if getattr(ctx, "replay", None) and "c15-wrapper-case " in open(ctx.replay).read():
+        from .. import c15wrap
+        return c15wrap.replay(ctx, ctx.replay, open(ctx.replay).read())
     if not getattr(ctx, "replay", None):
         from .. import g72x as _g72x
         _g72x.pregen(ctx)
@@ -31,7 +34,7 @@ def run(ctx):
         for (nm, text, sc) in wprobs[:4]:
             ctx.violation("c05-wrapper-" + nm.replace("|", "-"),
                           "# C05 violated on the implementation's own transcript (a read / write call returns a whole number of frames, the position advances by exactly that; "
-                          "one byte short inside a frame): %s\n# case %s (file|side|caller type|i=items f=frames b=raw bytes)\n--- script\n%s" % (text, nm, sc))
+                          "one byte short inside a frame): %s\n# case %s (file|side|caller type|i=items f=frames b=raw bytes)\nc15-wrapper-case %s\n--- script\n%s" % (text, nm, nm, sc))
         if wcorr and not wprobs:
             nm, k, a, b, sc = wcorr[0]
             ctx.violation("c05-wrapper-correspondence-" + nm.replace("|", "-"),
